@@ -48,7 +48,139 @@ func connack(sp bool, code int) []byte {
 	return []byte{0x20, 0x02, b, byte(code)}
 }
 
+// requests of one kind acknowledged out of order, so that one acknowledgement releases a batch of completions;
+// some completion callbacks return an error (ids = 3 mod 7), some SUBSCRIBEs have no completion callback and are
+// refused (0x80): every other completion must still fire, and granted subscriptions must still work
+func genBatches(r *hx.Rng) []hx.Group {
+	evs := []hx.Group{hx.GB([]int64{0}, connack(false, 0))}
+	cb := 7 * (1 + r.Intn(3)) // the next ids are 1, 2, 3 (mod 7): one of the first three callbacks fails
+	pid := 10 + r.Intn(50)
+	for round, n := 0, 1+r.Intn(3); round < n; round++ {
+		switch r.Intn(3) {
+		case 0, 1: // QoS 1 / QoS 2 publishes
+			q := 1 + r.Intn(2)
+			var pids []int
+			for k, m := 0, 2+r.Intn(3); k < m; k++ {
+				pid++
+				cb++
+				evs = append(evs, evPub(q, false, pid, cb, cNames[r.Intn(len(cNames))], r.Bytes(1+r.Intn(3))))
+				pids = append(pids, pid)
+			}
+			if q == 2 {
+				for _, p := range pids {
+					evs = append(evs, evIn(mq.Ack(mq.PUBREC, p)))
+				}
+			}
+			// the acknowledgements: the youngest first, or a random order
+			order := r.Intn(2)
+			for len(pids) > 0 {
+				j := len(pids) - 1
+				if order == 1 {
+					j = r.Intn(len(pids))
+				}
+				evs = append(evs, evIn(mq.Ack(map[int]int{1: mq.PUBACK, 2: mq.PUBCOMP}[q], pids[j])))
+				pids = append(pids[:j], pids[j+1:]...)
+			}
+		case 2: // SUBSCRIBEs: the first is refused and may have no completion callback
+			type sreq struct {
+				pid   int
+				f     string
+				codes byte
+			}
+			var reqs []sreq
+			for k, m := 0, 2+r.Intn(2); k < m; k++ {
+				pid++
+				cb++
+				done := cb
+				code := byte(r.Intn(3))
+				if k == 0 {
+					code = 0x80
+					if r.Bool() {
+						done = 0
+					}
+				}
+				f := cFilters[r.Intn(len(cFilters))]
+				evs = append(evs, evSub(pid, done, 100+cb, []filt{{f, int(code & 3)}}))
+				reqs = append(reqs, sreq{pid, f, code})
+			}
+			for j := len(reqs) - 1; j >= 0; j-- {
+				evs = append(evs, evIn(mq.Fixed(mq.SUBACK, 0, append(mq.U16(reqs[j].pid), reqs[j].codes))))
+			}
+			for k := 0; k < 3; k++ {
+				evs = append(evs, evIn(mq.Publish(cNames[r.Intn(len(cNames))], r.Bytes(1+r.Intn(3)), 0, false, false, 0)))
+			}
+		}
+	}
+	return evs
+}
+
+// Unsubscribe requests with several filters of which some are not (or no longer) held locally - never
+// subscribed, refused by the server, already unsubscribed - in every position; the server keeps delivering
+// on all of them before and after
+func genUnsubMulti(r *hx.Rng) []hx.Group {
+	evs := []hx.Group{hx.GB([]int64{0}, connack(false, 0))}
+	pool := []string{"a", "a/b", "b/c", "c", "a/+", "x/y"}
+	pid, cb := 10+r.Intn(50), 10
+	held := map[string]bool{}
+	traffic := func() {
+		for k := 0; k < 4; k++ {
+			evs = append(evs, evIn(mq.Publish(cNames[r.Intn(len(cNames))], r.Bytes(1+r.Intn(3)), 0, false, false, 0)))
+		}
+	}
+	for round, n := 0, 2+r.Intn(3); round < n; round++ {
+		// subscribe two or three filters, one of them possibly refused
+		var fs []filt
+		var codes []byte
+		seen := map[string]bool{}
+		for k, m := 0, 2+r.Intn(2); k < m; k++ {
+			f := pool[r.Intn(len(pool))]
+			if seen[f] {
+				continue
+			}
+			seen[f] = true
+			fs = append(fs, filt{f, 0})
+			c := byte(0)
+			if r.Chance(30) {
+				c = 0x80
+			} else {
+				held[f] = true
+			}
+			codes = append(codes, c)
+		}
+		pid++
+		cb++
+		evs = append(evs, evSub(pid, cb, 100+cb, fs))
+		evs = append(evs, evIn(mq.Fixed(mq.SUBACK, 0, append(mq.U16(pid), codes...))))
+		traffic()
+		// unsubscribe a mix of held and not held filters
+		var ufs []string
+		useen := map[string]bool{}
+		for k, m := 0, 2+r.Intn(2); k < m; k++ {
+			f := pool[r.Intn(len(pool))]
+			if !useen[f] {
+				useen[f] = true
+				ufs = append(ufs, f)
+			}
+		}
+		pid++
+		cb++
+		evs = append(evs, evUnsub(pid, cb, ufs))
+		evs = append(evs, evIn(mq.Ack(mq.UNSUBACK, pid)))
+		for _, f := range ufs {
+			delete(held, f)
+		}
+		traffic()
+	}
+	return evs
+}
+
 func genScript(r *hx.Rng) []hx.Group {
+	switch k := r.Intn(100); {
+	case k < 15:
+		return genBatches(r)
+	case k < 30:
+		return genUnsubMulti(r)
+	}
 	var evs []hx.Group
 	// the answer to CONNECT
 	switch k := r.Intn(100); {
@@ -66,12 +198,12 @@ func genScript(r *hx.Rng) []hx.Group {
 		pid int
 		fs  []filt
 	}
-	var pendingSubs []req   // SUBSCRIBE sent, not yet acknowledged
-	var pendingUnsub []int  // UNSUBSCRIBE sent
-	var pendingPub1 []int   // QoS 1 sent
-	var pendingPub2 []int   // QoS 2 sent, PUBREC not yet
-	var pendingComp []int   // QoS 2, PUBREC answered, PUBCOMP outstanding
-	var in2 []int           // inbound QoS 2 awaiting PUBREL
+	var pendingSubs []req  // SUBSCRIBE sent, not yet acknowledged
+	var pendingUnsub []int // UNSUBSCRIBE sent
+	var pendingPub1 []int  // QoS 1 sent
+	var pendingPub2 []int  // QoS 2 sent, PUBREC not yet
+	var pendingComp []int  // QoS 2, PUBREC answered, PUBCOMP outstanding
+	var in2 []int          // inbound QoS 2 awaiting PUBREL
 	nextPid := 1 + r.Intn(50)
 	nextCb := 10
 	spid := 300 + r.Intn(100)
@@ -98,7 +230,11 @@ func genScript(r *hx.Rng) []hx.Group {
 			if r.Chance(3) {
 				pc = 0
 			}
-			evs = append(evs, evSub(pid, nextCb, pc, fs))
+			done := nextCb
+			if r.Chance(8) {
+				done = 0 // no completion callback
+			}
+			evs = append(evs, evSub(pid, done, pc, fs))
 			if pc != 0 && pid != 0 {
 				pendingSubs = append(pendingSubs, req{pid, fs})
 			}
@@ -129,7 +265,11 @@ func genScript(r *hx.Rng) []hx.Group {
 		case k < 31: // Unsubscribe
 			nextPid++
 			nextCb++
-			evs = append(evs, evUnsub(nextPid, nextCb, []string{cFilters[r.Intn(len(cFilters))]}))
+			ufs := []string{cFilters[r.Intn(len(cFilters))]}
+			for r.Chance(35) && len(ufs) < 3 {
+				ufs = append(ufs, cFilters[r.Intn(len(cFilters))]) // several filters, held locally or not
+			}
+			evs = append(evs, evUnsub(nextPid, nextCb, ufs))
 			pendingUnsub = append(pendingUnsub, nextPid)
 		case k < 36 && len(pendingUnsub) > 0:
 			pid := pendingUnsub[0]
